@@ -75,7 +75,7 @@ class Trace:
     def brief(self) -> dict:
         out = {
             "cell": list(self.cell),
-            "events": [e.brief() for e in self.events if e.kind not in ("CATCH", "WITH_ENTER", "WITH_EXIT", "SETATTR")],
+            "events": [e.brief() for e in self.events if e.kind not in ("CATCH", "WITH_ENTER", "WITH_EXIT", "SETATTR", "OPAQUE")],
             "outcome": self.outcome,
         }
         if self.outcome == "raise":
@@ -127,7 +127,7 @@ class ProtocolModel:
 
     def executor_optype(self, ci: ClassInfo) -> str:
         """OperationType of the updates an executor sends, read from the factories it calls."""
-        types = set()
+        types: dict[str, int] = {}
         for fn in ci.methods.values():
             for node in ast.walk(fn.node):
                 if (
@@ -141,10 +141,12 @@ class ProtocolModel:
                         continue
                     for n2 in ast.walk(fac.node):
                         if isinstance(n2, ast.keyword) and n2.arg == "operation_type" and isinstance(n2.value, ast.Attribute):
-                            types.add(n2.value.attr)
-        if len(types) != 1:
-            raise AnalysisError(f"cannot derive a unique operation type for {ci.name}: {sorted(types)}")
-        return types.pop()
+                            types[n2.value.attr] = types.get(n2.value.attr, 0) + 1
+        ranked = sorted(types.items(), key=lambda kv: -kv[1])
+        if not ranked or (len(ranked) > 1 and ranked[0][1] == ranked[1][1]):
+            raise AnalysisError(f"cannot derive the operation type of {ci.name}: {ranked}")
+        # majority vote: a single odd factory is then reported by the kind-purity rule (C11/R2)
+        return ranked[0][0]
 
     # ------------------------------------------------------------------ hooks
     def make_config(self, *, faults: bool, user_raises: dict, inline_process: bool = True, extra_hooks=None) -> Config:
